@@ -284,7 +284,8 @@ type c06Pop struct {
 	Backend string `json:"backend"` // r1cs | scs
 	Width   uint64 `json:"width"`   // width of the check under test
 	PadN    int    `json:"pad_count"`
-	PadFull bool   `json:"pad_full_rangecheck"` // pad with Goldilocks RangeCheck (two 32-bit checks) instead of 16-bit checks
+	PadFull bool   `json:"pad_full_rangecheck"`        // pad with Goldilocks RangeCheck (two 32-bit checks) instead of 16-bit checks
+	Pad32   bool   `json:"pad_32bit_checks,omitempty"` // pad with single 32-bit checks
 	V       string `json:"v"`
 }
 
@@ -296,7 +297,7 @@ type c06PopSys struct {
 }
 
 func c06PopRun(a c06Pop) (string, string, string) {
-	key := fmt.Sprintf("%s/%d/%d/%v", a.Backend, a.Width, a.PadN, a.PadFull)
+	key := fmt.Sprintf("%s/%d/%d/%v/%v", a.Backend, a.Width, a.PadN, a.PadFull, a.Pad32)
 	ps, ok := c06PopSystems[key]
 	if !ok {
 		kind := cs.R1CS
@@ -309,6 +310,8 @@ func c06PopRun(a c06Pop) (string, string, string) {
 			for i := 0; i < a.PadN; i++ {
 				if a.PadFull {
 					c.RangeCheck(glv(in[1]))
+				} else if a.Pad32 {
+					c.RangeCheckWithMaxBits(glv(in[1]), 32)
 				} else {
 					c.RangeCheckWithMaxBits(glv(in[1]), 16)
 				}
@@ -332,10 +335,59 @@ func c06PopRun(a c06Pop) (string, string, string) {
 	return "", "", "compiled"
 }
 
+// gnarkWidthCriticalSizes returns the padding counts n in [0, max] at which gnark v0.9.1's
+// std/rangecheck limb-width choice for the population {one w-bit check + n paddings} changes between
+// n-1 and n or is tied between two widths, each with its neighbours n-1 and n+1.  padKind: 0 = 16-bit
+// checks, 1 = 32-bit checks, 2 = Goldilocks RangeCheck (two 32-bit checks).
+func gnarkWidthCriticalSizes(w, padKind int, plonk bool, max int) []int {
+	padBits, per := 16, 1
+	if padKind == 1 {
+		padBits = 32
+	} else if padKind == 2 {
+		padBits, per = 32, 2
+	}
+	choice := func(n int) (best int, tied bool) {
+		min := int(^uint(0) >> 1)
+		for j := 2; j < 18; j++ {
+			d := (w+j-1)/j + per*n*((padBits+j-1)/j)
+			cnt := 1 + per*n
+			cost := (1 << j) + d + cnt + 1
+			if plonk {
+				cost = 3*(1<<j) + 4*d + 1
+			}
+			if cost < min {
+				min, best, tied = cost, j, false
+			} else if cost == min {
+				tied = true
+			}
+		}
+		return
+	}
+	seen := map[int]bool{}
+	var out []int
+	add := func(n int) {
+		if n >= 0 && n <= max && !seen[n] {
+			seen[n] = true
+			out = append(out, n)
+		}
+	}
+	prev, _ := choice(0)
+	for n := 1; n <= max; n++ {
+		b, tied := choice(n)
+		if tied || b != prev {
+			add(n - 1)
+			add(n)
+			add(n + 1)
+		}
+		prev = b
+	}
+	return out
+}
+
 func TestC06(t *testing.T) {
 	r := rec.New("C06")
 	defer r.Flush()
-	r.Rule("value v (anchors 0, 2^16, 2^32, 2^48, 2^63, 2^64-2^32, p, 2^64, 2^n-1.., r with offsets -2..2; random of every bit length; random inside the range) x gadget {RangeCheck, RangeCheckWithMaxBits(n), n in 1..64,96,128,144,192} x configuration {engine: native / plain / commit(padded to 70k checks), each also with USE_BIT_DECOMPOSITION_RANGE_CHECK; compiled R1CS and SCS built for native-range-checker wrapper / commit / forced bits; gnark test engine}; out-of-range values are also tried with dishonest limb hints and a dishonest bit-decomposition hint; 'populations': one w-bit check (w in 16,32,48,64) plus 0..72000 padding checks compiled for R1CS and SCS under the commit checker - circuits the chip refuses are counted, circuits that compile must be exact at 2^w-1, 2^(w+j), 2^(w+j)+1; sizes are rapid-drawn and additionally swept with one size per geometric bucket of ratio 1.15 (thorough 1.04) per builder and padding kind.  Oracle: accepted <=> v < p (resp. v < 2^n); commit-mode widths not multiple of 16 may be refused.  Non-trivial = value within 2 of a range/field boundary or a dishonest hint; distinct = (v, n, configuration, hint).")
+	r.Rule("value v (anchors 0, 2^16, 2^32, 2^48, 2^63, 2^64-2^32, p, 2^64, 2^n-1.., r with offsets -2..2; random of every bit length; random inside the range) x gadget {RangeCheck, RangeCheckWithMaxBits(n), n in 1..64,96,128,144,192} x configuration {engine: native / plain / commit(padded to 70k checks), each also with USE_BIT_DECOMPOSITION_RANGE_CHECK; compiled R1CS and SCS built for native-range-checker wrapper / commit / forced bits; gnark test engine}; out-of-range values are also tried with dishonest limb hints and a dishonest bit-decomposition hint; 'populations': one w-bit check (w in 16,32,48,64) plus 0..72000 padding checks compiled for R1CS and SCS under the commit checker - circuits the chip refuses are counted, circuits that compile must be exact at 2^w-1, 2^(w+j), 2^(w+j)+1; sizes are rapid-drawn and additionally swept with one size per geometric bucket of ratio 1.15 (thorough 1.04) per builder and padding kind, and at every size where gnark's limb-width optimiser (cost formulas re-implemented from gnark's source) changes its choice or is tied, +-1.  Oracle: accepted <=> v < p (resp. v < 2^n); commit-mode widths not multiple of 16 may be refused.  Non-trivial = value within 2 of a range/field boundary or a dishonest hint; distinct = (v, n, configuration, hint).")
 	r.Assume("gnark v0.9.1 builders/solver and std/rangecheck as shipped", "the native-range-checker builder wrapper implements Check by bit decomposition inside the wrapped builder")
 
 	var rp c06Replay
@@ -586,6 +638,46 @@ func TestC06(t *testing.T) {
 					}
 					if stop {
 						break
+					}
+				}
+			}
+		}
+	}
+	// B4. sizes at which gnark's limb-width optimiser (std/rangecheck, cost formulas re-implemented here from
+	// gnark's source) changes its choice or has two equally cheap widths, +-1: the places where a copy of
+	// that optimiser inside the chip can disagree with gnark's.
+	{
+		w := []uint64{32, 16, 64, 48}[rec.Seed()%4]
+		ws := []uint64{w}
+		if rec.Thorough() {
+			ws = []uint64{16, 32, 48, 64}
+		}
+		for _, w := range ws {
+			for pk := 0; pk < 3; pk++ {
+				for bi, backend := range []string{"r1cs", "scs"} {
+					for _, n := range gnarkWidthCriticalSizes(int(w), pk, bi == 1, 72000) {
+						item++
+						if !rec.Mine(item) {
+							continue
+						}
+						a := c06Pop{Backend: backend, Width: w, PadN: n, PadFull: pk == 2, Pad32: pk == 1}
+						for _, v := range []*big.Int{new(big.Int).Sub(pow2(uint(w)), big.NewInt(1)), pow2(uint(w)), pow2(uint(w) + 1), pow2(uint(w) + 7)} {
+							a.V = v.String()
+							k, d, st := c06PopRun(a)
+							if st == "refused" {
+								popRefused++
+							} else {
+								popCompiled++
+							}
+							r.Case("population-critical-size/"+a.Backend+"/"+st, st != "refused", fmt.Sprint(a), func() any { return a })
+							if k != "" {
+								cfg, _ := json.Marshal(a)
+								r.Fail(t, "C06/"+k, c06Replay{Backend: "population", Config: string(cfg), Width: a.Width, V: a.V}, "%s", d)
+							}
+							if st == "refused" {
+								break
+							}
+						}
 					}
 				}
 			}
